@@ -21,7 +21,7 @@ ENGINES = [
      'kind_free_text': 'PEG-to-SMT encoder for crates/core/src/parser/grammar.pest, re-read on every run'},
     {'name': 'E1-kani', 'path': 'kani/', 'serves_properties': ['C07', 'C11'],
      'kind_free_text': 'Kani proof harnesses over the real liquid-core code for scalar-level units (symbolic i64/f64/bool inputs, all bit patterns), unwinding assertions on, cover! vacuity witnesses'},
-    {'name': 'E2-mirsym', 'path': 'mirsym/', 'serves_properties': ['C04', 'C05', 'C06', 'C10', 'C15', 'C18'],
+    {'name': 'E2-mirsym', 'path': 'mirsym/', 'serves_properties': ['C01', 'C04', 'C05', 'C06', 'C07', 'C08', 'C10', 'C15', 'C18'],
      'kind_free_text': 'MIR symbolic executor (Python + z3): rustc --emit=mir of /repo working tree on every run, path enumeration with symbolic leaves, listed library models, native replay of counterexamples'},
 ]
 
@@ -46,6 +46,8 @@ CHECKS = {
             'text': 'Facets: (1) the lax top-level grammar rule consumes EVERY string of up to N code points (N=12 quick, 18 thorough), so parser::parse cannot hit its expects; (2) every text accepted as Float/Boolean/String literal is convertible; (3) real MIR of parse_literal on integer literals of 1..20 symbolic digits with optional sign: the denoted integer when it fits, otherwise a float, never a panic. Block-parser totality (TagBlock) is not covered yet.'},
     'C03': {'engine': 'E3-pegsmt', 'technique': T_PEG, 'note': N_PEG,
             'text': 'Grammar facets for every string of up to N code points: trim-whitespace set is exactly {space, tab, LF, CR}; trimming start/end delimiters consume exactly the adjacent whitespace run, plain ones nothing else; Raw text is maximal, contains no start delimiter, and plain text is a single Raw covering the input.'},
+    'C08': {'engine': 'E2-mirsym', 'technique': T_MIR, 'note': N_MIR + '; partial store, partial template, argument expressions and the caller runtime are abstract stubs; the meaning of the scope shapes comes from the C18 frame lemmas',
+            'text': 'Real MIR of Include::render_to and Render::render_to (plain and for-as forms): the partial is rendered with exactly StackFrame(caller, args) resp. GlobalFrame(SandboxedStackFrame(caller, args [+forloop, item])), the caller writer, truthful forloop, interrupts of a rendered partial stay in the sandbox registers and are reset per iteration, name / name.liquid lookup order, errors (never Ok, never panic) for non-string names, unevaluable arguments and missing partials.'},
 }
 
 NOT_BUILT = 'not claimed yet: obligations for this property are not built in this revision (see DESIGN.md §4)'
